@@ -118,6 +118,8 @@ def run_scenarios(driver_exe, replayer_exe, scns, workdir, timeout=3000, shards=
             elif f[0] == "ABORT":
                 parts = [x.strip() for x in line.rstrip("\n").split("|")]
                 res["aborts"].append({"scenario": f[1], "run": f[2], "choices": parts[1][2:] if len(parts) > 1 else "", "what": parts[-1]})
+            elif f[0] == "COV":
+                res.setdefault("cov", {}).setdefault(f[1], set()).update(f[2:])
             elif f[0] == "ERROR":
                 res["errors"].append(line.strip())
     return res
@@ -190,6 +192,7 @@ def make_corr(prop, driver, gen, relevant=None, what_model="", discipline=None, 
                           "schedules_executed": r["runs"], "aborted_runs": len(r["aborts"]),
                           "ops_histogram": op_histogram(scns), "threads_histogram": hist(len(s.threads) for s in scns),
                           "modes": hist(s.mode.split()[0] for s in scns), "kinds": hist(s.kind for s in scns)})
+        res["stats"]["model_pc_coverage"] = pc_coverage(r.get("cov"))
         if fine_gen:
             res["stats"]["statement_level_schedules_monitored"] = r.get("fine_runs", 0)
             res["evaluations"] += r.get("fine_runs", 0)
@@ -198,6 +201,76 @@ def make_corr(prop, driver, gen, relevant=None, what_model="", discipline=None, 
             res["stats"]["access_discipline"] = "checked"
             res["mismatches"] = dmis + res["mismatches"]
         return res
+    return run
+
+PC_TYPES = {  # scenario kind -> (model file, name of the pc inductive)
+    "jdk": ("Queue/JdkModel.v", "pc"), "mutex": ("Queue/MutexModel.v", "mpc"),
+    "jdkadd": ("Adder/StripedModel.v", "apc"), "jdkf": ("Adder/StripedModel.v", "apc"),
+    "rc": ("Adder/SimpleModel.v", "rpc"), "atomic": ("Adder/SimpleModel.v", "tpc"), "atomicf": ("Adder/SimpleModel.v", "tpc"),
+    "mutexadd": ("Adder/SimpleModel.v", "xpc"),
+    "breaker": ("Breaker/BreakerModel.v", "bpc"), "window": ("Breaker/BreakerModel.v", "bpc"),
+}
+
+def pc_names(kind):
+    """constructor key (as printed by the replayer) -> name, from the Coq source of the model"""
+    if kind not in PC_TYPES:
+        return {}
+    f, ty = PC_TYPES[kind]
+    path = os.path.join(C.COQ, "theories", f)
+    if not os.path.exists(path):
+        return {}
+    src = re.sub(r'\(\*.*?\*\)', '', open(path).read(), flags=re.S)
+    m = re.search(r'Inductive\s+%s\s*:=(.*?)\.\s*\n' % re.escape(ty), src, flags=re.S)
+    if not m:
+        return {}
+    names, nc, nb = {}, 0, 0
+    for alt in m.group(1).split("|"):
+        alt = alt.strip()
+        if not alt:
+            continue
+        parts = alt.split(None, 1)
+        if len(parts) == 1:
+            names["c%d" % nc] = parts[0]; nc += 1
+        else:
+            names["b%d" % nb] = parts[0]; nb += 1
+    return names
+
+def pc_coverage(cov):
+    out = {}
+    for kind, keys in (cov or {}).items():
+        names = pc_names(kind)
+        if not names:
+            continue
+        # the invocation pc is the start state of every call: visited by construction
+        missing = sorted(n for k, n in names.items() if k not in keys and not n.endswith("Inv"))
+        out[kind] = {"model_pcs": len(names), "visited": len(names) - len(missing), "not_visited": missing}
+    return out
+
+def merge_corr(corrs):
+    """one property served by several drivers (C19: queue + adder)"""
+    def run(tier, seed):
+        out = None
+        for c in corrs:
+            r = c(tier, seed)
+            if out is None:
+                out = r
+                continue
+            for k in ("evaluations", "distinct_nontrivial", "traces_validated_against_impl", "scenarios", "schedules"):
+                out[k] = out.get(k, 0) + r.get(k, 0)
+            for k in ("mismatches", "violations", "samples"):
+                out[k] = out.get(k, []) + r.get(k, [])
+            if r.get("build_error"):
+                out["build_error"] = (out.get("build_error", "") + "\n" + r["build_error"]).strip()
+            st, st2 = out.setdefault("stats", {}), r.get("stats", {})
+            for k, v in st2.items():
+                if isinstance(v, dict) and isinstance(st.get(k), dict):
+                    for kk, vv in v.items():
+                        st[k][kk] = (st[k].get(kk, 0) + vv) if isinstance(vv, int) and isinstance(st[k].get(kk, 0), int) else vv
+                elif isinstance(v, int) and isinstance(st.get(k), int):
+                    st[k] += v
+                else:
+                    st.setdefault(k, v)
+        return out
     return run
 
 def hist(it):
